@@ -141,18 +141,20 @@ PROPS = {
     },
     "C14": {
         "streams": {"ycfg": {"quick": 2500, "thorough": 120000},
-                    "yuses": {"quick": 1000, "thorough": 40000}},
+                    "yuses": {"quick": 1000, "thorough": 40000},
+                    "ymodsst": {"quick": 800, "thorough": 30000}},
         "trusted": ["the canonical dump of a compiled ModelSet and the classification of compile errors into classes (harness)",
                     "'editing the target's source accordingly' is performed by the harness on the generator's AST (and independently by Spec.YCfgS.editNode in Lean)"],
         "modelled": ["deviations of default / config / mandatory / min-elements / max-elements and not-supported; units, must, unique, type and extension properties are not generated",
                      "one deviation per node and none nested in another one's target (how several deviations of one subtree combine is not compared)",
-                     "typedef / grouping / identity reference-status checks are not generated here (only if-feature references)",
+                     "grouping / identity reference-status checks are not generated (if-feature references in ycfg, typedef references in ymods)",
                      "when several errors apply, which one is reported first depends on Go map order across modules; single-error cases dominate"],
         "rule": "random module bodies with config / status statements (as for C20), 0-5 features in the module and 0-3 in an imported module with a random dependency graph (forward edges, rare back edges, "
                 "cross-module edges, rare deprecated/obsolete features), a random enabled set, if-feature statements (1-2 per node, local and imported features) on 18 % of the nodes, and 0-3 deviations "
                 "(not-supported; add / replace / delete of default, config, mandatory, min-elements, max-elements; 12 % chosen against what the RFC allows for the node); compared: the compile verdict and error class, "
                 "the dump of the compiled tree, and — on the real code — dump(module + deviations) = dump(module edited accordingly); "
-                "yuses (the stream of C12, here for status and config handed down by uses / augment statements that carry a status of their own, to nodes that state one too)",
+                "yuses (the stream of C12, here for status and config handed down by uses / augment statements that carry a status of their own, to nodes that state one too); "
+                "ymodsst (the modules of C11's stream with no other fault than 'ref-status': status statements on the typedefs of three modules and on the leaves that use them, chains within and across modules: a definition may refer to a definition of its own module that is no more obsolete than itself)",
     },
     "C12": {
         "streams": {"yuses": {"quick": 6000, "thorough": 150000}},
